@@ -942,6 +942,10 @@ class _EvalBuilder(_Builder):
         bindings the lambda closed over"""
         i = self.i
         ent = i.lambdas.get(s[1][1])
+        if not ent:
+            from .sym import MODULE_LAMBDAS
+            nd = MODULE_LAMBDAS.get(s[1][1])
+            ent = (nd, {}) if nd is not None else None
         if not ent or not i.frames or self.pure:
             return None
         node, snap = ent
